@@ -1233,4 +1233,250 @@ theorem C04_range_loop (img : Image) (P0 : Nat) (b : List Instr) (v : String) (a
     rw [if_neg hn, if_pos this, addN_int]; congr 1; omega
 
 
+/-! ## `repeat n with v from a to b`: the increment -/
+
+theorem pfRun_append (rd : Src → Val) (a b : List Instr) (stk : List Val) :
+    pfRun rd (a ++ b) stk = (pfRun rd a stk).bind (pfRun rd b) := by
+  induction a generalizing stk with
+  | nil => simp [pfRun]
+  | cons i is ih =>
+    simp only [List.cons_append, pfRun]
+    cases pfStep rd stk i with
+    | none => simp
+    | some s1 => simp [ih]
+
+/-- a postfix run ended by `POP <loop variable>`, whatever it leaves below the value -/
+theorem run_pf_lv' (img : Image) (pf : List Instr) (l : LoopVar) (s : State) (pc : Nat) (r : Val)
+    (stk' : List Val) (vars : List (LoopVar × Val)) (h : Nat) (rest : List Frame)
+    (hs : s.status = .running) (hpc : s.pc = (pc : Int))
+    (hc : CodeAt img pc (pf ++ [.pop (.loopVar l)])) (hst : s.stack = .loop vars h :: rest)
+    (hr : pfRun s.read pf s.eval = some (r :: stk')) :
+    run img (pf.length + 1) s =
+      { s with pc := (pc : Int) + pf.length + 1, eval := stk',
+               stack := .loop (setLV vars l r) h :: rest } := by
+  rw [run_add, run_pf img s.read pf s pc _ hs hpc hc.left (fun _ => rfl) hr, run_one _ _ (by exact hs),
+    step_pop img _ (pc + pf.length) (.loopVar l) r stk' (by exact hs) (by simp) hc.right.head (by rfl)]
+  have hst' : ({ s with pc := (pc : Int) + pf.length, eval := stk' } : State).stack = .loop vars h :: rest := hst
+  simp only [State.put, putLoopVar_eq hst']
+  simp [hs]
+
+theorem calcIncr_eq : calcIncr =
+    [Instr.push (.loopVar .counter), .pushq (.int 1), .op .noteq, .pop (.reg .result),
+     .jump .ifFalse 10] ++
+    (([Instr.push (.loopVar .last), .push (.loopVar .first), .op .sub] ++
+      [Instr.push (.loopVar .counter), .pushq (.int 1), .op .sub] ++ [Instr.op .div]) ++
+      [Instr.pop (.loopVar .incr)]) ++
+    [Instr.jump .always 2, .moveq (.int 0) (.loopVar .incr)] := rfl
+
+/-- **calc_incr.**  The prologue of `repeat n with v from a to b`: from the count `c` in the
+hidden counter and numbers `x`, `y` in `first`, `last`, `incr` becomes `(y − x)/(c − 1)` — a
+float — or the integer 0 when `c = 1`; the division is exact (ℚ); no fault. -/
+theorem run_calcIncr (img : Image) (s : State) (pc : Nat) (vars : List (LoopVar × Val)) (h : Nat)
+    (rest : List Frame) (c x y : Rat) (fl fx fy : Bool)
+    (hs : s.status = .running) (hpc : s.pc = (pc : Int)) (hc : CodeAt img pc calcIncr)
+    (hst : s.stack = .loop vars h :: rest) (hn : Num (getLV vars .counter) c fl)
+    (hf : Num (getLV vars .first) x fx) (hl : Num (getLV vars .last) y fy) :
+    ∃ k vars', run img k s =
+        { s with pc := (pc : Int) + 15,
+                 regs := fun q => if q = .result then .bool (!decide (c = 1)) else s.regs q,
+                 stack := .loop vars' h :: rest } ∧
+      Num (getLV vars' .incr) (if c = 1 then 0 else (y - x) / (c - 1)) (!decide (c = 1)) ∧
+      (∀ l, l ≠ .incr → getLV vars' l = getLV vars l) := by
+  let R : Reg → Val := fun q => if q = .result then .bool (!decide (c = 1)) else s.regs q
+  let sA : State := { s with pc := (pc : Int) + 4, regs := R }
+  have hne : binVal .noteq (getLV vars .counter) (.int 1) = some (.bool (!decide (c = 1))) := by
+    show some (Val.bool (!Val.beq _ _)) = _
+    rw [num_beq_int hn 1]; simp
+  have hA : run img 4 s = sA :=
+    run_group_reg img _ _ .noteq .result s pc _ _ _ hs hpc (hc.slice 0 4)
+      (pfStep_push_lv s s.eval .counter _ (getLoopVar_eq hst _) hn.ne_none) (pfStep_pushq _ _ _) hne
+  have hstA : sA.stack = .loop vars h :: rest := hst
+  by_cases h1 : c = 1
+  · -- one pass: incr := 0
+    have hJ : run img 1 sA = ({ s with pc := (pc : Int) + 14, regs := R } : State) := by
+      rw [run_jump_ifFalse img sA (pc + 4) 10 (by exact hs) (by simp [sA]) (hc.get 4 (by decide))]
+      apply State.ext' <;> first | rfl | (simp [sA, R, h1, Val.truthy]; omega) | (simp [sA, R, h1, Val.truthy])
+    have hM : run img 1 ({ s with pc := (pc : Int) + 14, regs := R } : State) =
+        ({ s with pc := (pc : Int) + 15, regs := R, stack := .loop (setLV vars .incr (.int 0)) h :: rest } : State) := by
+      rw [run_moveq_lv img _ (pc + 14) .incr (.int 0) vars h rest (by exact hs) (by simp)
+        (hc.get 14 (by decide)) (by exact hst)]
+      apply State.ext' <;> first | rfl | (simp; omega)
+    refine ⟨4 + (1 + 1), setLV vars .incr (.int 0), run_trans hA (run_trans hJ hM), ?_, ?_⟩
+    · rw [getLV_setLV_self]; simpa [h1] using Num.int 0
+    · intro l hl; exact getLV_setLV_other _ _ _ _ hl
+  · have hJ : run img 1 sA = ({ s with pc := (pc : Int) + 5, regs := R } : State) := by
+      rw [run_jump_ifFalse img sA (pc + 4) 10 (by exact hs) (by simp [sA]) (hc.get 4 (by decide))]
+      apply State.ext' <;> first | rfl | (simp [sA, R, h1, Val.truthy]; omega) | (simp [sA, R, h1, Val.truthy])
+    let sB : State := { s with pc := (pc : Int) + 5, regs := R }
+    have hstB : sB.stack = .loop vars h :: rest := hst
+    obtain ⟨hsub1, hd0⟩ := num_sub hl hf
+    obtain ⟨hsub2, hm⟩ := num_sub hn (Num.int 1)
+    have hm0 : c - ((1 : Int) : Rat) ≠ 0 := by
+      intro e; apply h1
+      have : ((1 : Int) : Rat) = 1 := by simp
+      rw [this] at e; grind
+    have hdiv := num_div hd0 hm hm0
+    have hpf : pfRun sB.read (([Instr.push (.loopVar .last), .push (.loopVar .first), .op .sub] ++
+        [Instr.push (.loopVar .counter), .pushq (.int 1), .op .sub] ++ [Instr.op .div])) sB.eval =
+        some (Val.num ((y - x) / (c - ((1 : Int) : Rat))) :: sB.eval) := by
+      rw [pfRun_append, pfRun_append,
+        pfRun3 sB.read sB.eval _ _ .sub _ _ _
+          (pfStep_push_lv sB sB.eval .last _ (getLoopVar_eq hstB _) hl.ne_none)
+          (pfStep_push_lv sB _ .first _ (getLoopVar_eq hstB _) hf.ne_none)
+          (by show Val.sub _ _ = _; exact hsub1)]
+      simp only [Option.bind_some]
+      rw [pfRun3 sB.read _ _ _ .sub _ _ _
+          (pfStep_push_lv sB _ .counter _ (getLoopVar_eq hstB _) hn.ne_none)
+          (pfStep_pushq _ _ _)
+          (by show Val.sub _ _ = _; exact hsub2)]
+      simp only [Option.bind_some, pfRun, pfStep]
+      have : binVal .div (Val.mkNum (y - x) (fy || fx)) (Val.mkNum (c - ((1 : Int) : Rat)) (fl || false)) =
+          some (Val.num ((y - x) / (c - ((1 : Int) : Rat)))) := by
+        show Val.div _ _ = _; exact hdiv
+      rw [this]; rfl
+    have hcB : CodeAt img (pc + 5) (([Instr.push (.loopVar .last), .push (.loopVar .first), .op .sub] ++
+        [Instr.push (.loopVar .counter), .pushq (.int 1), .op .sub] ++ [Instr.op .div]) ++
+        [Instr.pop (.loopVar .incr)]) := hc.slice 5 8
+    let iv := Val.num ((y - x) / (c - ((1 : Int) : Rat)))
+    have hB : run img 8 sB =
+        ({ s with pc := (pc : Int) + 13, regs := R, stack := .loop (setLV vars .incr iv) h :: rest } : State) := by
+      have := run_pf_lv' img _ .incr sB (pc + 5) iv sB.eval vars h rest (by exact hs) (by simp [sB]) hcB hstB hpf
+      simp only [List.length_append, List.length_cons, List.length_nil] at this
+      rw [this]
+      apply State.ext' <;> first | rfl | (simp [sB]; omega)
+    have hK : run img 1 ({ s with pc := (pc : Int) + 13, regs := R, stack := .loop (setLV vars .incr iv) h :: rest } : State) =
+        ({ s with pc := (pc : Int) + 15, regs := R, stack := .loop (setLV vars .incr iv) h :: rest } : State) := by
+      rw [run_jump_always img _ (pc + 13) 2 (by exact hs) (by simp) (hc.get 13 (by decide))]
+      apply State.ext' <;> first | rfl | (simp; omega)
+    refine ⟨4 + (1 + (8 + 1)), setLV vars .incr iv, run_trans hA (run_trans hJ (run_trans hB hK)), ?_, ?_⟩
+    · rw [getLV_setLV_self]
+      have : ((1 : Int) : Rat) = 1 := by simp
+      simp only [h1, if_false, decide_false, Bool.not_false, iv, this]
+      exact Num.num _
+    · intro l hl; exact getLV_setLV_other _ _ _ _ hl
+
+
+/-! ## `repeat n with v cycle s`: the increment -/
+
+/-- the part of `Gen.cycleVarRange` after `first` and the loop variable are set -/
+def cycleTail : List Instr :=
+  testOp .eq (.push (.loopVar .counter)) (.pushq (.int 0)) ++
+  [.jump .ifFalse 3, .moveq (.int 0) (.loopVar .incr), .jump .always 12] ++
+  testOp .eq (.push (.reg .unitMode)) (.pushq (.mode .raw)) ++
+  [.jump .ifFalse 3, .pushq (.int 65536), .jump .always 2, .pushq (.int 360),
+   .push (.loopVar .counter), .op .div, .pop (.loopVar .incr)]
+
+theorem run_pushq (img : Image) (s : State) (pc : Nat) (v : Val)
+    (hs : s.status = .running) (hpc : s.pc = (pc : Int)) (hi : img.code[pc]? = some (.pushq v)) :
+    run img 1 s = { s with pc := (pc : Int) + 1, eval := v :: s.eval } := by
+  rw [run_one _ _ hs, step_pushq img s pc v hs hpc hi]
+
+/-- a full turn in the current units -/
+def turnOf (m : UnitMode) : Int := if m = .raw then 65536 else 360
+
+/-- **cycle increment.**  The prologue of `repeat n with v cycle …`: `incr` becomes a full turn
+— 65536 when the unit-mode register holds `raw`, else 360 — divided by the count `c` in the
+hidden counter, exactly (ℚ); with a count of 0 it becomes 0 and nothing faults. -/
+theorem run_cycleIncr (img : Image) (s : State) (pc : Nat) (vars : List (LoopVar × Val)) (h : Nat)
+    (rest : List Frame) (c : Rat) (fl : Bool) (m : UnitMode)
+    (hs : s.status = .running) (hpc : s.pc = (pc : Int)) (hc : CodeAt img pc cycleTail)
+    (hst : s.stack = .loop vars h :: rest) (hn : Num (getLV vars .counter) c fl)
+    (hm : s.regs .unitMode = .mode m) :
+    ∃ k vars' R, run img k s =
+        { s with pc := (pc : Int) + 18, regs := R, stack := .loop vars' h :: rest } ∧
+      (∀ q, q ≠ .result → R q = s.regs q) ∧
+      Num (getLV vars' .incr) (if c = 0 then 0 else ((turnOf m : Int) : Rat) / c) (!decide (c = 0)) ∧
+      (∀ l, l ≠ .incr → getLV vars' l = getLV vars l) := by
+  let R0 : Reg → Val := fun q => if q = .result then .bool (decide (c = 0)) else s.regs q
+  let sA : State := { s with pc := (pc : Int) + 4, regs := R0 }
+  have heq : binVal .eq (getLV vars .counter) (.int 0) = some (.bool (decide (c = 0))) := by
+    show some (Val.bool (Val.beq _ _)) = _
+    rw [num_beq_int hn 0]; simp
+  have hA : run img 4 s = sA :=
+    run_group_reg img _ _ .eq .result s pc _ _ _ hs hpc (hc.slice 0 4)
+      (pfStep_push_lv s s.eval .counter _ (getLoopVar_eq hst _) hn.ne_none) (pfStep_pushq _ _ _) heq
+  by_cases h0 : c = 0
+  · have hJ : run img 1 sA = ({ s with pc := (pc : Int) + 5, regs := R0 } : State) := by
+      rw [run_jump_ifFalse img sA (pc + 4) 3 (by exact hs) (by simp [sA]) (hc.get 4 (by decide))]
+      apply State.ext' <;> first | rfl | (simp [sA, R0, h0, Val.truthy]; omega) | (simp [sA, R0, h0, Val.truthy])
+    have hM : run img 1 ({ s with pc := (pc : Int) + 5, regs := R0 } : State) =
+        ({ s with pc := (pc : Int) + 6, regs := R0, stack := .loop (setLV vars .incr (.int 0)) h :: rest } : State) := by
+      rw [run_moveq_lv img _ (pc + 5) .incr (.int 0) vars h rest (by exact hs) (by simp)
+        (hc.get 5 (by decide)) (by exact hst)]
+      apply State.ext' <;> first | rfl | (simp; omega)
+    have hK : run img 1 ({ s with pc := (pc : Int) + 6, regs := R0, stack := .loop (setLV vars .incr (.int 0)) h :: rest } : State) =
+        ({ s with pc := (pc : Int) + 18, regs := R0, stack := .loop (setLV vars .incr (.int 0)) h :: rest } : State) := by
+      rw [run_jump_always img _ (pc + 6) 12 (by exact hs) (by simp) (hc.get 6 (by decide))]
+      apply State.ext' <;> first | rfl | (simp; omega)
+    refine ⟨4 + (1 + (1 + 1)), setLV vars .incr (.int 0), R0, run_trans hA (run_trans hJ (run_trans hM hK)),
+      ?_, ?_, ?_⟩
+    · intro q hq; simp [R0, hq]
+    · rw [getLV_setLV_self]; simpa [h0] using Num.int 0
+    · intro l hl; exact getLV_setLV_other _ _ _ _ hl
+  · have hJ : run img 1 sA = ({ s with pc := (pc : Int) + 7, regs := R0 } : State) := by
+      rw [run_jump_ifFalse img sA (pc + 4) 3 (by exact hs) (by simp [sA]) (hc.get 4 (by decide))]
+      apply State.ext' <;> first | rfl | (simp [sA, R0, h0, Val.truthy]; omega) | (simp [sA, R0, h0, Val.truthy])
+    let sB : State := { s with pc := (pc : Int) + 7, regs := R0 }
+    let R1 : Reg → Val := fun q => if q = .result then .bool (m == .raw) else R0 q
+    have hmB : sB.regs .unitMode = .mode m := by simp [sB, R0, hm]
+    have heq2 : binVal .eq (.mode m) (.mode .raw) = some (.bool (m == .raw)) := rfl
+    have hB : run img 4 sB = ({ s with pc := (pc : Int) + 11, regs := R1 } : State) := by
+      rw [run_group_reg img _ _ .eq .result sB (pc + 7) _ _ _ (by exact hs) (by simp [sB]) (hc.slice 7 4)
+        (pfStep_push_reg sB sB.eval .unitMode _ hmB (by simp)) (pfStep_pushq _ _ _) heq2]
+      apply State.ext' <;> first | rfl | (simp [sB]; omega)
+    -- both branches push the turn and meet at pc + 15
+    have hT : ∃ k, run img k ({ s with pc := (pc : Int) + 11, regs := R1 } : State) =
+        ({ s with pc := (pc : Int) + 15, regs := R1, eval := .int (turnOf m) :: s.eval } : State) := by
+      by_cases hr : m = .raw
+      · have h1 : run img 1 ({ s with pc := (pc : Int) + 11, regs := R1 } : State) =
+            ({ s with pc := (pc : Int) + 12, regs := R1 } : State) := by
+          rw [run_jump_ifFalse img _ (pc + 11) 3 (by exact hs) (by simp) (hc.get 11 (by decide))]
+          apply State.ext' <;> first | rfl | (simp [R1, hr, Val.truthy]; omega) | (simp [R1, hr, Val.truthy])
+        have h2 : run img 1 ({ s with pc := (pc : Int) + 12, regs := R1 } : State) =
+            ({ s with pc := (pc : Int) + 13, regs := R1, eval := .int 65536 :: s.eval } : State) := by
+          rw [run_pushq img _ (pc + 12) _ (by exact hs) (by simp) (hc.get 12 (by decide))]
+          apply State.ext' <;> first | rfl | (simp; omega)
+        have h3 : run img 1 ({ s with pc := (pc : Int) + 13, regs := R1, eval := .int 65536 :: s.eval } : State) =
+            ({ s with pc := (pc : Int) + 15, regs := R1, eval := .int (turnOf m) :: s.eval } : State) := by
+          rw [run_jump_always img _ (pc + 13) 2 (by exact hs) (by simp) (hc.get 13 (by decide))]
+          apply State.ext' <;> first | rfl | (simp [turnOf, hr]; omega) | (simp [turnOf, hr])
+        exact ⟨_, run_trans h1 (run_trans h2 h3)⟩
+      · have hb : (m == UnitMode.raw) = false := by simpa using hr
+        have h1 : run img 1 ({ s with pc := (pc : Int) + 11, regs := R1 } : State) =
+            ({ s with pc := (pc : Int) + 14, regs := R1 } : State) := by
+          rw [run_jump_ifFalse img _ (pc + 11) 3 (by exact hs) (by simp) (hc.get 11 (by decide))]
+          apply State.ext' <;> first | rfl | (simp [R1, hb, Val.truthy]; omega) | (simp [R1, hb, Val.truthy])
+        have h2 : run img 1 ({ s with pc := (pc : Int) + 14, regs := R1 } : State) =
+            ({ s with pc := (pc : Int) + 15, regs := R1, eval := .int (turnOf m) :: s.eval } : State) := by
+          rw [run_pushq img _ (pc + 14) _ (by exact hs) (by simp) (hc.get 14 (by decide))]
+          apply State.ext' <;> first | rfl | (simp [turnOf, hr]; omega) | (simp [turnOf, hr])
+        exact ⟨_, run_trans h1 h2⟩
+    obtain ⟨kT, hT⟩ := hT
+    let sC : State := { s with pc := (pc : Int) + 15, regs := R1, eval := .int (turnOf m) :: s.eval }
+    have hstC : sC.stack = .loop vars h :: rest := hst
+    have hdiv := num_div (Num.int (turnOf m)) hn h0
+    let iv := Val.num (((turnOf m : Int) : Rat) / c)
+    have hpf : pfRun sC.read [Instr.push (.loopVar .counter), .op .div] sC.eval = some (iv :: s.eval) := by
+      have h1 := pfStep_push_lv sC sC.eval .counter _ (getLoopVar_eq hstC _) hn.ne_none
+      have : binVal .div (.int (turnOf m)) (getLV vars .counter) = some iv := by
+        show Val.div _ _ = _; exact hdiv
+      simp only [pfRun]
+      rw [h1]
+      simp [pfStep, sC, this]
+    have hD : run img 3 sC =
+        ({ s with pc := (pc : Int) + 18, regs := R1, stack := .loop (setLV vars .incr iv) h :: rest } : State) := by
+      have := run_pf_lv' img [Instr.push (.loopVar .counter), .op .div] .incr sC (pc + 15) iv s.eval vars h rest
+        (by exact hs) (by simp [sC]) (hc.slice 15 3) hstC hpf
+      simp only [List.length_cons, List.length_nil] at this
+      rw [this]
+      apply State.ext' <;> first | rfl | (simp [sC]; omega)
+    refine ⟨4 + (1 + (4 + (kT + 3))), setLV vars .incr iv, R1,
+      run_trans hA (run_trans hJ (run_trans hB (run_trans hT hD))), ?_, ?_, ?_⟩
+    · intro q hq; simp [R1, R0, hq]
+    · rw [getLV_setLV_self]
+      simp only [h0, if_false, decide_false, Bool.not_false, iv]
+      exact Num.num _
+    · intro l hl; exact getLV_setLV_other _ _ _ _ hl
+
+
 end Bardolph
